@@ -228,3 +228,87 @@ def c12_iface_args(ab: int, ib: int, extra: int) -> bool:
     with NoTracing():
         eng = try_build(PRE + "interface I { x(a: %s): Int }\ntype T implements I { x(a: %s%s): Int }" % (it, at, ex))
     return verdict(eng is None)
+
+
+# ---- unit obligations on the real GraphQLSchema validators with a SYMBOLIC referring name ---------------------------
+# A valid skeleton schema is baked concretely; then the *referring* name of one element is replaced by a symbolic string
+# (lookup position only — the defining side stays concrete) and the real validator runs: it must report an error exactly
+# when the name does not denote a suitable defined type — for every string.
+SKEL = "interface N { id: ID }\ntype A implements N { id: ID x: Int }\ntype B { y: Int }\nunion U = A | B\nenum E { RED GREEN }\ninput In { i: Int }\nscalar My\n" \
+       "type Query { a: A f(arg: In): Int u: U }\ntype Mutation { m: Int }"
+Scalar("My", schema_name="c12_unit")(_MyScalar)
+UNIT = asyncio.run(create_engine(SKEL, schema_name="c12_unit", json_loader=identity))
+SCHEMA = UNIT._schema
+DEFINED = list(SCHEMA.type_definitions.keys())
+INPUT_TYPES = [n for n in DEFINED if type(SCHEMA.type_definitions[n]).__name__ in ("GraphQLScalarType", "GraphQLEnumType", "GraphQLInputObjectType")]
+
+
+def one_of(t, names):
+    for n in names:
+        if t == n:
+            return True
+    return False
+
+
+@obligation(tier="quick", timeout=120, shards=[{"site": s} for s in ("field", "argument", "input_field", "interface", "query_root", "mutation_root", "subscription_root", "union_member")],
+            samples=[{"t": "A"}, {"t": "Nope"}, {"t": ""}, {"t": "In"}],
+            symbolic=["t: str — the referring type name (all strings)"], selectors=["shard: which reference is made symbolic"], findings=["F11"],
+            bounds="one skeleton schema, 8 reference sites",
+            note="the real _validate_* methods report an error for every name that does not denote a defined (resp. input / interface) type, and none for the names that do")
+def c12_symbolic_reference(t: str) -> bool:
+    """
+    post: _
+    """
+    site = shard()["site"]
+    td = SCHEMA.type_definitions
+    if site == "field":
+        fld = td["Query"].implemented_fields["a"]
+        old = fld.gql_type; fld.gql_type = t
+        try:
+            errs = SCHEMA._validate_schema_named_types()
+        finally:
+            fld.gql_type = old
+        return verdict(bool(errs) != one_of(t, DEFINED))
+    if site == "argument":
+        arg = td["Query"].implemented_fields["f"].arguments["arg"]
+        old = arg.gql_type; arg.gql_type = t
+        try:
+            errs = SCHEMA._validate_arguments_have_valid_type()
+        finally:
+            arg.gql_type = old
+        return verdict(bool(errs) != one_of(t, INPUT_TYPES))
+    if site == "input_field":
+        inf = td["In"].input_fields["i"]
+        old = inf.gql_type; inf.gql_type = t
+        try:
+            errs = SCHEMA._validate_input_type_composed_of_input_type()
+        finally:
+            inf.gql_type = old
+        return verdict(bool(errs) != one_of(t, INPUT_TYPES))
+    if site == "interface":
+        obj = td["A"]
+        old = obj.interfaces_names
+        obj.interfaces_names = [t]
+        try:
+            errs = SCHEMA._validate_object_follow_interfaces()
+        finally:
+            obj.interfaces_names = old
+        return verdict(bool(errs) != (t == "N"))
+    if site in ("query_root", "mutation_root", "subscription_root"):
+        attr = site.split("_")[0] + "_operation_name"
+        old = getattr(SCHEMA, attr); setattr(SCHEMA, attr, t)
+        try:
+            errs = SCHEMA._validate_schema_root_types_exist()
+        finally:
+            setattr(SCHEMA, attr, old)
+        if site == "subscription_root" and finding_open("F11") and t == "Subscription":
+            return True          # the undefined default name is not reported (known finding F11)
+        return verdict(bool(errs) != one_of(t, DEFINED))
+    un = td["U"]
+    old = un.types
+    un.types = ["A", t]
+    try:
+        errs = SCHEMA._validate_union_is_acceptable()
+    finally:
+        un.types = old
+    return verdict(bool(errs) == (t == "U"))
